@@ -15,10 +15,15 @@
    assumed as documented in eventfd(2) / epoll(7).
 
    Threads: 0 = the I/O thread inside run(stop_token);  1..k = remote producers, producer p
-   schedules its items p.0, p.1, ... ;  with a stopper, thread k+1 requests stop: the stop callback
-   of run() schedules the stop operation exactly like a producer (schedule_impl -> schedule_remote,
-   lines 195-204).  prestop: the token is already stopped when run() is entered, the callback
-   runs inline on the I/O thread before the loop, which then enqueues the stop operation itself.
+   schedules its items p.0, p.1, ... ;  k+1..k+m = stoppers calling request_stop() on the stop
+   source of run()'s token.  run() first registers its stop callback (hpp 204-209); the stopper
+   whose request_stop() sets the stop bit runs the registered callback, which schedules the stop
+   operation exactly like a producer (schedule_impl -> schedule_remote, cpp 195-204).  If the stop
+   bit is already set when the callback is registered (a stopper was faster, or the token was
+   stopped before run(): pre), the callback runs inline on the I/O thread before the loop, which
+   then enqueues the stop operation itself.  The stop source is C03's; here it is two bits
+   (stop requested, callback registered) with one linearisation point per registration (the lock
+   acquisition of try_add_callback) and per request_stop (its stop-bit CAS).
    compare_exchange_weak is modelled without spurious failures.
    Executable definitions only. *)
 From Coq Require Import List Bool Arith.
@@ -48,6 +53,7 @@ Definition ptr_eqb (a b : ptr) : bool :=
 
 (* schedule_remote(item j): enqueue (load, CAS loop), then write(eventfd) iff told "inactive" *)
 Inductive ppc :=
+| PSet                          (* stopper: about to request_stop() (stop-bit CAS) *)
 | PLoad (j : nat)               (* about to head_.load(relaxed)  (enqueue, line 103) *)
 | PCas (j : nat) (old : ptr)    (* item->next set from old; about to CAS old -> item (acq_rel) *)
 | PWrite (j : nat).             (* enqueue returned true: about to write(eventfd) (line 363) *)
@@ -58,7 +64,8 @@ Record prod := { pk : kind; pn : nat; pp : ppc }.
 
 (* the I/O thread *)
 Inductive lpc :=
-| LPreLoad                      (* prestop: inline stop callback, schedule_remote(&stopOp): load *)
+| LReg                          (* run(): about to construct the stop callback (registration) *)
+| LPreLoad                      (* stop already requested: inline stop callback, schedule_remote(&stopOp): load *)
 | LPreCas (old : ptr)
 | LPreWrite
 | LExec                         (* execute_pending_local: about to run the next pending item *)
@@ -78,6 +85,8 @@ Record st := {
   pending : list item;        (* the batch being executed (front first) *)
   should_stop : bool;         (* stopOp.shouldStop_ *)
   prods : list prod;
+  stopped : bool;             (* stop requested on run()'s token *)
+  registered : bool;          (* run()'s stop callback is registered with the source *)
   (* ghost *)
   enq : list item;            (* items in the order of their successful enqueue CAS *)
   consumed : list item;       (* items taken out of the batches so far, in order *)
@@ -93,16 +102,16 @@ Inductive ev :=
 | EWaitRet                                     (* epoll_wait returned the eventfd *)
 | ERead (v : nat)                              (* read(eventfd) = v *)
 | EExec (it : item)                            (* the item runs (on the calling thread) *)
-| EReturn.                                     (* run() returns *)
+| EReturn                                      (* run() returns *)
+| ESrcReg (ok : bool)                          (* callback registration: registered / stop already requested *)
+| ESrcSet (won : bool).                        (* request_stop(): set the stop bit / already set *)
 
-Inductive stopmode := SNone | SThread | SPre.
-
-Definition init (counts : list nat) (sm : stopmode) : st :=
-  {| inactive := false; stack := []; efd := 0;
-     loop := match sm with SPre => LPreLoad | _ => LMarkLoad end;
+Definition init (counts : list nat) (nstop : nat) (pre : bool) : st :=
+  {| inactive := false; stack := []; efd := 0; loop := LReg;
      pending := []; should_stop := false;
      prods := map (fun n => {| pk := KProd; pn := n; pp := PLoad 0 |}) counts
-              ++ match sm with SThread => [{| pk := KStopper; pn := 1; pp := PLoad 0 |}] | _ => [] end;
+              ++ repeat {| pk := KStopper; pn := 1; pp := PSet |} nstop;
+     stopped := pre; registered := false;
      enq := []; consumed := []; tokens := 0 |}.
 
 Fixpoint set_nth {A} (n : nat) (x : A) (l : list A) : list A :=
@@ -118,23 +127,28 @@ Definition head_ptr (s : st) : ptr :=
 (* field updates *)
 Definition set_head (s : st) (ina : bool) (stk : list item) : st :=
   {| inactive := ina; stack := stk; efd := efd s; loop := loop s; pending := pending s;
-     should_stop := should_stop s; prods := prods s; enq := enq s; consumed := consumed s; tokens := tokens s |}.
+     should_stop := should_stop s; prods := prods s; stopped := stopped s; registered := registered s; enq := enq s; consumed := consumed s; tokens := tokens s |}.
 Definition set_efd (s : st) (v : nat) : st :=
   {| inactive := inactive s; stack := stack s; efd := v; loop := loop s; pending := pending s;
-     should_stop := should_stop s; prods := prods s; enq := enq s; consumed := consumed s; tokens := tokens s |}.
+     should_stop := should_stop s; prods := prods s; stopped := stopped s; registered := registered s; enq := enq s; consumed := consumed s; tokens := tokens s |}.
 Definition set_loop (s : st) (l : lpc) : st :=
   {| inactive := inactive s; stack := stack s; efd := efd s; loop := l; pending := pending s;
-     should_stop := should_stop s; prods := prods s; enq := enq s; consumed := consumed s; tokens := tokens s |}.
+     should_stop := should_stop s; prods := prods s; stopped := stopped s; registered := registered s; enq := enq s; consumed := consumed s; tokens := tokens s |}.
 Definition set_batch (s : st) (b : list item) (stp : bool) (c : list item) : st :=
   {| inactive := inactive s; stack := stack s; efd := efd s; loop := loop s; pending := b;
-     should_stop := stp; prods := prods s; enq := enq s; consumed := c; tokens := tokens s |}.
+     should_stop := stp; prods := prods s; stopped := stopped s; registered := registered s; enq := enq s; consumed := c; tokens := tokens s |}.
 Definition set_prod (s : st) (i : nat) (p : prod) : st :=
   {| inactive := inactive s; stack := stack s; efd := efd s; loop := loop s; pending := pending s;
-     should_stop := should_stop s; prods := set_nth i p (prods s); enq := enq s; consumed := consumed s;
-     tokens := tokens s |}.
+     should_stop := should_stop s; prods := set_nth i p (prods s); stopped := stopped s;
+     registered := registered s; enq := enq s; consumed := consumed s; tokens := tokens s |}.
 Definition set_ghost (s : st) (e : list item) (tk : nat) : st :=
   {| inactive := inactive s; stack := stack s; efd := efd s; loop := loop s; pending := pending s;
-     should_stop := should_stop s; prods := prods s; enq := e; consumed := consumed s; tokens := tk |}.
+     should_stop := should_stop s; prods := prods s; stopped := stopped s; registered := registered s; enq := e; consumed := consumed s; tokens := tk |}.
+
+Definition set_src (s : st) (stp reg : bool) : st :=
+  {| inactive := inactive s; stack := stack s; efd := efd s; loop := loop s; pending := pending s;
+     should_stop := should_stop s; prods := prods s; stopped := stp; registered := reg;
+     enq := enq s; consumed := consumed s; tokens := tokens s |}.
 
 Definition with_pp (p : prod) (c : ppc) : prod := {| pk := pk p; pn := pn p; pp := c |}.
 
@@ -154,6 +168,10 @@ Definition step_prod (i : nat) (s : st) : option (st * list ev) :=
   | None => None
   | Some p =>
       match pp p with
+      | PSet =>
+          if stopped s then Some (set_prod s i (with_pp p (PLoad 1)), [ESrcSet false])
+          else Some (set_prod (set_src s true (registered s)) i
+                       (with_pp p (PLoad (if registered s then 0 else 1))), [ESrcSet true])
       | PLoad j =>
           if Nat.ltb j (pn p)
           then Some (set_prod s i (with_pp p (PCas j (head_ptr s))), [ELoad (head_ptr s)])
@@ -194,6 +212,9 @@ Definition continue_batch (s : st) (b : list item) : st :=
 
 Definition step_loop (s : st) : option (st * list ev) :=
   match loop s with
+  | LReg =>
+      if stopped s then Some (set_loop s LPreLoad, [ESrcReg false])
+      else Some (set_loop (set_src s false true) LMarkLoad, [ESrcReg true])
   | LPreLoad => Some (set_loop s (LPreCas (head_ptr s)), [ELoad (head_ptr s)])
   | LPreCas old =>
       let cur := head_ptr s in
